@@ -1,6 +1,6 @@
-(* Model/Archive.v — what zipfs and tarfs have in common (C14): archives as entry lists, the
+(* Model/Archive.v — what zipfs and tarfs have in common (C14): archives as aentry lists, the
    path splitting both packages use, the directory index as a Go map of maps, and the
-   SPECIFICATION side of C14: the read-only byte-array view of one entry (built on
+   SPECIFICATION side of C14: the read-only byte-array view of one aentry (built on
    ByteFile.bf_step), the expected Stat answer and the expected directory listing.
    Definitions only. *)
 From AF Require Import Lib.Bytes Lib.Path Lib.Ops Model.ByteFile.
@@ -11,14 +11,14 @@ Local Open Scope Z_scope.
    header marks a directory, and the (uncompressed) bytes.  archive/zip and archive/tar are
    trusted to hand back exactly these three things (zip: File.Name, FileInfo().IsDir(),
    UncompressedSize64 = |content| and Open() yielding content; tar: Header.Name, Typeflag,
-   Header.Size = |content| and the entry's reader yielding content). *)
-Record entry := mkEntry { ename : str; eisdir : bool; econtent : bytes }.
-Definition archive := list entry.
-Definition esize (e : entry) : Z := zlen (econtent e).
+   Header.Size = |content| and the aentry's reader yielding content). *)
+Record aentry := mkEntry { ename : str; eisdir : bool; econtent : bytes }.
+Definition archive := list aentry.
+Definition esize (e : aentry) : Z := zlen (econtent e).
 
 (* zipfs/fs.go:18-27 = tarfs/fs.go:20-29  splitpath (filepath.ToSlash is the identity on Unix) *)
 Definition rooted_name (n : str) : str := if is_rooted n then n else SLASH :: n.
-(* the entry's cleaned (absolute) path *)
+(* the aentry's cleaned (absolute) path *)
 Definition cpath (n : str) : str := clean (rooted_name n).
 Definition splitpath (n : str) : str * str :=
   let '(d, f) := path_split (cpath n) in (clean d, f).
@@ -27,41 +27,41 @@ Definition joined (n : str) : str := let '(d, f) := splitpath n in join2 d f.
 
 (* ---------------------------------------------------------------- the index *)
 (* map[string]map[string]*T as association lists in insertion order *)
-Definition index := list (str * list (str * entry)).
+Definition index := list (str * list (str * aentry)).
 
 (* if _, ok := files[d]; !ok { files[d] = make(map...) } *)
 Definition idx_ensure (d : str) (ix : index) : index :=
   match alist_get d ix with Some _ => ix | None => ix ++ [(d, [])] end.
 (* files[d][f] = e   (files[d] exists) *)
-Definition idx_put (d f : str) (e : entry) (ix : index) : index :=
+Definition idx_put (d f : str) (e : aentry) (ix : index) : index :=
   match alist_get d ix with
   | Some m => alist_set d (alist_set f e m) ix
   | None => ix
   end.
 (* if _, ok := files[d][f]; !ok { files[d][f] = e } *)
-Definition idx_put_first (d f : str) (e : entry) (ix : index) : index :=
+Definition idx_put_first (d f : str) (e : aentry) (ix : index) : index :=
   match alist_get d ix with
   | Some m => match alist_get f m with Some _ => ix | None => alist_set d (alist_set f e m) ix end
   | None => ix
   end.
 (* files[d][f] with both "ok" tests *)
-Definition idx_get (ix : index) (d f : str) : option entry :=
+Definition idx_get (ix : index) (d f : str) : option aentry :=
   match alist_get d ix with Some m => alist_get f m | None => None end.
 
 (* ---------------------------------------------------------------- specification *)
-(* which entry a path names: the one whose cleaned path splits the same way *)
+(* which aentry a path names: the one whose cleaned path splits the same way *)
 Definition key_eqb (a b : str * str) : bool := beqb (fst a) (fst b) && beqb (snd a) (snd b).
-Definition ekey (e : entry) : str * str := splitpath (ename e).
-Definition names_entry (p : str) (e : entry) : bool := key_eqb (splitpath p) (ekey e).
-(* entries stored directly under directory d (d = a cleaned absolute path); an entry whose own
+Definition ekey (e : aentry) : str * str := splitpath (ename e).
+Definition names_entry (p : str) (e : aentry) : bool := key_eqb (splitpath p) (ekey e).
+(* entries stored directly under directory d (d = a cleaned absolute path); an aentry whose own
    name cleans to the root is not a member of anything *)
-Definition is_child_of (d : str) (e : entry) : bool :=
+Definition is_child_of (d : str) (e : aentry) : bool :=
   beqb (fst (ekey e)) d && negb (is_empty (snd (ekey e))).
-Definition spec_children (a : archive) (d : str) : list entry := filter (is_child_of d) a.
-(* what Stat has to say about an entry as far as the property goes *)
-Definition spec_stat (e : entry) : bool * Z := (eisdir e, esize e).
+Definition spec_children (a : archive) (d : str) : list aentry := filter (is_child_of d) a.
+(* what Stat has to say about an aentry as far as the property goes *)
+Definition spec_stat (e : aentry) : bool * Z := (eisdir e, esize e).
 
-(* The read-only byte-array view of ONE entry with any number of handles: ByteFile.bf_step on
+(* The read-only byte-array view of ONE aentry with any number of handles: ByteFile.bf_step on
    read-only handles, plus three points where bf_step (written for mem.File) leaves a choice
    that the archive filesystems make differently and the property does not care about:
    - Open adds a fresh read-only handle at offset 0;
@@ -103,8 +103,9 @@ Definition proj14 (o : op) (r : res) : pres :=
   | _, RPanic => PErr 99
   | Open _, RHandle _ => POk
   | HClose _, _ => POk
-  | HSeek _ _ wh, RPos _ (Some _) =>
-      if negb ((wh =? 0) || (wh =? 1) || (wh =? 2)) then PErr C_INVALID else proj o r
+  | HSeek _ _ wh, RPos _ (Some e) =>
+      if negb ((wh =? 0) || (wh =? 1) || (wh =? 2)) && negb (Nat.eqb (class_of e) C_CLOSED)
+      then PErr C_INVALID else proj o r
   | HRead _ _, RData (x :: b) (Some e) => if is_eof e then PBytes (x :: b) false else proj o r
   | _, _ => proj o r
   end.
@@ -144,7 +145,7 @@ Fixpoint arun {St} (step : St -> op -> St * res) (s : St) (ops : list op) : St *
 
 (* ---------------------------------------------------------------- digest (vm_compute cross-check) *)
 Definition dg_mod : Z := 2305843009213693951.
-Definition dg (acc x : Z) : Z := (acc * 131 + x + 7) mod dg_mod.
+Definition dg (acc x : Z) : Z := Z.land (acc * 131 + x + 7) dg_mod.
 Definition dg_bytes (acc : Z) (b : bytes) : Z := fold_left (fun a x => dg a (Z.of_N x)) b (dg acc (zlen b)).
 Definition errk_code (k : errk) : Z :=
   match k with
